@@ -21,6 +21,7 @@ import os
 import shutil
 import tempfile
 import zipfile
+import zlib
 
 from .. import tlc
 from ..common import Report, pmap, harness_errors, rng, setup_repo, canon
@@ -231,6 +232,10 @@ def typed_case(item):
                                   'datetime': dict(format='%d.%m.%Y %H.%M.%S')}.get(tp, {}))
                 fields.append((n, tp, extra))
             rows = [{n: rand_value(r, tp, tier, 1000 if cfg['temporal'] else 1) for n, tp in zip(names, types)} for _ in range(r.randint(0, 5))]
+            if cfg.get('keyorder'):
+                # the order of the KEYS of a row dict means nothing (a row step may have rebuilt the rows): a cell belongs to the
+                # field it is named after, not to the field at its position
+                rows = [dict(sorted(row.items(), key=lambda kv: (zlib.crc32(('%s/%d' % (kv[0], item['seed'])).encode()), kv[0]))) for row in rows]
             # resource names (hence file names) with dots that share everything before the first dot: two resources, two files
             resources.append((('res%d' if cfg.get('missing') else 'data.v%d') % ri, fields, rows, None, ({'missingValues': list(cfg['missing'])} if cfg.get('missing') else None)))
         if cfg['nres'] == 2 and r.random() < 0.25:
@@ -246,6 +251,11 @@ def typed_case(item):
                 # resource paths with directories: the same file name under different directories must stay different files
                 import dataflows as DF_
                 pre = [DF_.update_resource(x[0], path='y20%02d/sales.csv' % i) for i, x in enumerate(resources)]
+            if cfg.get('enc'):
+                # the resource arrives with an encoding of its own (that of the file it was once loaded from): the written
+                # descriptor has to record the encoding of the WRITTEN file
+                import dataflows as DF_
+                pre = pre + [DF_.update_resource(None, encoding=cfg['enc'])]
             desc, read, src = dump(copy.deepcopy(resources), cfg['format'], cfg['target'], root, pre_steps=pre, **opts)
         except Exception as e:
             return dict(ok=False, why='dump raised %s: %s' % (type(e).__name__, str(e)[:200]), cfg=cfg)
@@ -290,7 +300,12 @@ def typed_case(item):
             except Exception as e:
                 problems.append('data file %s not found: %s' % (wres['path'], e))
                 continue
-            files.append(dict(ri=ri, fmt=wres.get('format'), data=data.decode('utf8'), dialect=wres.get('dialect', {}),
+            try:
+                data_text = data.decode(wres.get('encoding') or 'utf-8')
+            except Exception as e:
+                problems.append('data file %s does not decode with the recorded encoding %r: %s' % (wres['path'], wres.get('encoding'), str(e)[:80]))
+                continue
+            files.append(dict(ri=ri, fmt=wres.get('format'), data=data_text, dialect=wres.get('dialect', {}),
                               fields=wfields, missing=wres['schema'].get('missingValues', ['']), rows=rows,
                               spec=[(f[0], f[1]) for f in fields]))
         if load_err:
@@ -422,7 +437,8 @@ def run():
     mvs = model_missing(rep)
     for cfg in cfgs:
         for _ in range(per):
-            items.append(dict(cfg=dict(cfg, missing=r.choice([None, None] + mvs), dirs=r.random() < 0.3), seed=r.randrange(10 ** 9), tier=t))
+            items.append(dict(cfg=dict(cfg, missing=r.choice([None, None] + mvs), dirs=r.random() < 0.3,
+                                       keyorder=r.random() < 0.35, enc=r.choice([None, None, 'windows-1252', 'utf-16'])), seed=r.randrange(10 ** 9), tier=t))
     tres = pmap(typed_case, items, chunksize=4)
     errs = harness_errors(tres)
     if errs:
